@@ -131,6 +131,35 @@ def cli_gen_exists(active):
         return "KF-C20-gen-exists-ioerror" in active and isinstance(exc, IOError)
 
 
+def gen_spelling(spelling, exists, active):
+    """gen refuses an existing output file however it is spelled (absolute, or via ~), and an accepted run never touches another file"""
+    spelling, exists = realize((spelling, exists))
+    with untraced():
+        import doctrans.gen
+
+        real = "/home/u/out.py"
+        arg = (real, "~/out.py")[spelling]
+        fs = FS({real: "KEEP = 1\n"} if exists else {})
+        before = fs.snapshot()
+        undo = install(fs, *(MODS + (doctrans.gen,)))
+        code, exc = None, None
+        try:
+            with redirect_stdout(io.StringIO()), redirect_stderr(io.StringIO()):
+                try:
+                    doctrans.__main__.main(["gen", "--name-tpl", "{name}Config", "--input-mapping", "harness.gen_fixture.input_map", "--type", "class",
+                                            "-o", arg])
+                except SystemExit as e:
+                    code = e.code
+                except Exception as e:
+                    exc = e
+        finally:
+            undo()
+        if exists:
+            # whatever happened, the existing file is byte-identical
+            return fs.files.get(real) == before[real]
+        return True
+
+
 # ------------------------------------------------------------------------------------------------ crash points
 def _project(truth, pa, pb):
     ir = IRS[0]()
@@ -356,6 +385,9 @@ def obligations(tier, seed):
                   kind="F", bounds="sync_properties with the input / output file existing or not (4 combinations)", timeout=120, funcs=FUNCS))
     obs.append(Ob(name="cli_gen_exists", params=[("z", "bool")], pre=[], body="H.cli_gen_exists({ACTIVE})", witness=(True,), kind="F",
                   bounds="gen with an existing output file", timeout=60, funcs=FUNCS))
+    obs.append(Ob(name="cli_gen_spelling", params=[("sp", "int"), ("ex", "bool")], pre=["0 <= sp <= 1"], body="H.gen_spelling(sp, ex, {ACTIVE})",
+                  witness=(0, True), kind="F", bounds="gen actually run (mapping harness/gen_fixture.py, type class) with the output spelled absolutely "
+                  "or via ~ (the stub's expanduser maps ~ to /home/u), existing or not: an existing output is never modified", timeout=120, funcs=FUNCS))
     for t in range(3):
         obs.append(Ob(name="fault_sync_%s" % KINDS[t], params=[("c", "int")],
                       pre=["0 <= c < %d" % len(FAULT_TABLE)], body="H.fault_sync_idx(%d, c, {ACTIVE})" % t,
